@@ -28,6 +28,7 @@ import (
 
 	"github.com/elliotchance/gedcom/v39"
 	"github.com/elliotchance/gedcom/v39/html"
+	"github.com/elliotchance/gedcom/v39/q"
 )
 
 var c14FaultNames = []string{
@@ -878,6 +879,38 @@ func init() {
 				c.Eval()
 			}
 
+			// (history) q's MergeDocumentsAndIndividuals in ONE engine: evaluated twice on the same two
+			// documents, then with the same document on both sides, then on a third document
+			if fi%4 == 0 {
+				obs := c14Rec(func() string {
+					engine, err := q.NewParser().ParseString("MergeDocumentsAndIndividuals(Document1, Document2)")
+					if err != nil {
+						return "parse error"
+					}
+					d1, _ := gedcom.NewDocumentFromString(text)
+					d2, _ := gedcom.NewDocumentFromString(okText)
+					str := func(v interface{}, err error) string {
+						if err != nil {
+							return "error"
+						}
+						if g, ok := v.(gedcom.GEDCOMStringer); ok {
+							return g.GEDCOMString(0)
+						}
+						return fmt.Sprint(v)
+					}
+					first := str(engine.Evaluate([]*gedcom.Document{d1, d2}))
+					second := str(engine.Evaluate([]*gedcom.Document{d1, d2}))
+					str(engine.Evaluate([]*gedcom.Document{d1, d1}))
+					str(engine.Evaluate([]*gedcom.Document{d2, d1}))
+					return fmt.Sprintf("again-equal=%v", first == second)
+				})
+				c.Eval()
+				c.Count("merge history in one engine: " + obs)
+				if obs == "panic" {
+					c.Oracle("", "MergeDocumentsAndIndividuals evaluated repeatedly in one engine panics", map[string]string{"faults": c14MaskNames(mask), "file": text, "other_file": okText}, "panic", "a result or an error")
+				}
+			}
+
 			// living bits for the publish prediction (real IsLiving, fresh document: Observe warmed caches)
 			living := make([]byte, len(doc.Nodes()))
 			for i, n := range doc.Nodes() {
@@ -1113,6 +1146,9 @@ func init() {
 			}
 		}
 
+		// ---- the boundary corpus: byte boundaries of references, counts, sizes x jobs, flags, sinks
+		c14BoundaryRuns(c, tmp, &runs)
+
 		// ---- run the commands in parallel child processes
 		nw := runtime.NumCPU()
 		if nw > 16 {
@@ -1146,7 +1182,7 @@ func init() {
 				slowest = run.elapsed
 			}
 			variant := run.kind
-			if run.kind == "publish" {
+			if run.kind == "publish" && len(run.args) > 6 {
 				variant += "/" + run.args[6]
 			}
 			c.Count("cmd=" + variant)
@@ -1157,7 +1193,7 @@ func init() {
 			faults := c14MaskNames(run.mask)
 			if run.label != "" {
 				faults = run.label
-				c.Count("large-file run: " + run.kind + " -> " + run.class)
+				c.Count("special run (large / boundary): " + run.kind + " -> " + run.class)
 			}
 			c.Nontrivial(faults + "/" + variant + "/" + run.class)
 			cls := "ok"
